@@ -268,6 +268,16 @@ impl WorldA {
                             if self.fam == Fam::Multi {
                                 obs.violate("C11", "healthy-client-starved", super::model::kind_name(c.cfg.kind), format!("conn {} dir {} ch {}", i, d, k));
                             }
+                            // C08: the heal phase hands over everything that is sent, so a packet the peer still has never been
+                            // handed means the sender went silent on it before the peer had it
+                            if c.msgs.iter().any(|m| m.obtained == 0 && !m.released && m.handed.iter().any(|h| *h == 0)) {
+                                obs.violate(
+                                    "C08",
+                                    "stopped-retransmitting-before-peer-has-it",
+                                    super::model::kind_name(c.cfg.kind),
+                                    format!("conn {} dir {} ch {}: an unacknowledged item was not sent once in {} heal ticks", i, d, k, bound[i]),
+                                );
+                            }
                         }
                     }
                 }
